@@ -289,7 +289,15 @@ def _native_monitor(which, nn, bb):
     from jinns.data._DataGenerators import DataGeneratorODE, CubicMeshPDEStatio, DataGeneratorObservations
     key = jax.random.PRNGKey(0)
     msgs = []
-    if "temporal_batch" in which:
+    if "NonStatio.temporal_batch" in which:
+        from jinns.data._DataGenerators import CubicMeshPDENonStatio
+        # interior batch size deliberately different from the temporal one
+        g = CubicMeshPDENonStatio(key=key, n=12, nb=None, nt=nn, omega_batch_size=(4 if bb != 4 else 3), omega_border_batch_size=None,
+                                  temporal_batch_size=bb, dim=1, min_pts=(0.0,), max_pts=(1.0,), tmin=0.0, tmax=1.0)
+        get = lambda g: g.temporal_batch()
+        st = lambda g: np.asarray(g.times)
+        ix = lambda g: int(g.curr_time_idx)
+    elif "temporal_batch" in which:
         g = DataGeneratorODE(key, nn, 0.0, 1.0, bb)
         get = lambda g: g.temporal_batch()
         st = lambda g: np.asarray(g.times)
